@@ -30,13 +30,18 @@ def replay_history(vec, fmt="delimited"):
     cid = shape.new_cid()
     keep = []
     findings = []
+    prepared = {}
     for index, entry in enumerate(vec["hist"]):
         run = entry["run"]
+        # readers that the history creates now and iterates after this run (Park / Resume)
+        for later, other in enumerate(vec["hist"]):
+            if later > index and other["run"].get("deferred") and other["run"]["createdAt"] == index:
+                prepared[later] = sessionlib.create_reader(shape, cid, other["run"])
         expected = sessionlib.normalise_expected(shape, run, entry["fresh"])
         if run["op"] == "write":
-            observed = sessionlib.run_write(shape, cid, run, keep)
+            observed = sessionlib.run_write(shape, cid, run, keep, release=True)
         else:
-            observed = sessionlib.run_read(shape, cid, run, keep)
+            observed = sessionlib.run_read(shape, cid, run, keep, prepared.pop(index, None), release=True)
         counters = run["op"] == "write" or run["api"] == "reader"
         problems = sessionlib.differences(run, expected, observed, counters)
         if run["op"] == "write" and not observed["stream_ok"]:
